@@ -263,7 +263,7 @@ def run_shard(spec):
     while i < spec["n"] and not sh.out_of_time():
         i += 1
         logical = rng.random() < 0.5
-        case = gen_case(rng, dict(bytes_defaults=0.15, logical=logical), dict(hints=0.2, size_budget=60, big=0.005, omit_nullable=0.15))
+        case = gen_case(rng, dict(bytes_defaults=0.15, logical=logical, union_default_any=True), dict(hints=0.2, size_budget=60, big=0.005, omit_nullable=0.15))
         sh.feat(case["features"])
         seed = rng.getrandbits(48)
         applies = RC.has_bytes_default(case["node"])
